@@ -9,7 +9,8 @@
 (* record's instance, produced by a rejecting abstraction: `off` counts    *)
 (* the values that were not within the stated tolerance of the lattice):   *)
 (*   p, id, api, rep ("coord" | "array"), src ("coords" | "limits" |       *)
-(*   "free"), lat (equilateral lattice instance), off                      *)
+(*   "free" | "distorted"), lat (equilateral lattice instance), off,       *)
+(*   exact (nbr: all vertex arithmetic of the instance is exact)           *)
 (*   construct: c, fl, w, xo, yo, tris, tris_arr, tris_vi, n, area2        *)
 (*   up / nbr / sel: pre, post, post_arr, n_pre, n_post, area2_pre,        *)
 (*                   area2_post, idx (0-based, sel only)                   *)
@@ -60,11 +61,15 @@ Clauses(r) ==
            IF ~ (IsTriSeq(r.pre) /\ IsTriSeq(r.post) /\ IsTriSeq(r.post_arr)) THEN << Cl("well-formed", FALSE) >>
            ELSE
            << Cl("on-lattice", r.off = 0),
-              \* the reflection used by NbrSet is the mirror image in the edge (true for equilateral triangles)
-              Cl("input-is-equilateral-lattice-set",
-                 r.lat /\ \A k \in DOMAIN r.pre : /\ Equilateral(r.pre[k])
-                                                  /\ \A j \in 1 .. 3 : IsEdgeReflection(Across(r.pre[k], j), r.pre[k], j)),
+              \* on an equilateral lattice instance the neighbour across an edge (half-turn about its midpoint) is the
+              \* mirror image in that edge; on an irregular vertex array only the half-turn is meaningful
+              Cl("lattice-input-is-equilateral-and-reflection-is-mirror-image",
+                 r.lat => \A k \in DOMAIN r.pre : /\ Equilateral(r.pre[k])
+                                                   /\ \A j \in 1 .. 3 : IsEdgeReflection(Across(r.pre[k], j), r.pre[k], j)),
+              Cl("input-triangles-non-degenerate", \A k \in DOMAIN r.pre : Area2(r.pre[k]) > 0),
               Cl("originals-and-three-edge-reflections-and-nothing-else", Neighbourhood(r.pre, r.post)),
+              \* count: with exact arithmetic (r.exact) every neighbour triangle appears once
+              Cl("every-neighbour-once", r.exact => NoNeighbourTwice(r.pre, r.post)),
               Cl("representations-agree", SameBag(r.post, r.post_arr)),
               Cl("len-and-area-are-geometric", Measures(r.n_post, r.area2_post, r.post)) >>
       [] r.api = "sel" ->
@@ -88,7 +93,9 @@ Want(r) ==
       [] r.api = "up" -> IF IsTriSeq(r.pre) /\ \A k \in DOMAIN r.pre : Halvable(r.pre[k])
                          THEN [n |-> 4 * Len(r.pre), area2 |-> TotalArea2(r.pre), e_g |-> ChildrenAll(r.pre)]
                          ELSE [n |-> 4 * Len(r.pre)]
-      [] r.api = "nbr" -> IF IsTriSeq(r.pre) THEN NbrSet(r.pre) ELSE << >>
+      [] r.api = "nbr" -> IF IsTriSeq(r.pre) THEN [n |-> Cardinality(NbrSet(r.pre)), missing |-> NbrSet(r.pre) \ ToSet(Geo(r.post)),
+                                                   extra |-> ToSet(Geo(r.post)) \ NbrSet(r.pre)]
+                          ELSE << >>
       [] r.api = "sel" -> IF IsTriSeq(r.pre) /\ \A k \in DOMAIN r.idx : r.idx[k] + 1 \in DOMAIN r.pre
                           THEN Selected(r.pre, Plus1(r.idx)) ELSE << >>
       [] r.api = "contain" -> IF IsTriSeq(r.tris) /\ \A q \in DOMAIN r.shapes : ShapeOK(r.shapes[q])
@@ -103,7 +110,7 @@ Failed(r) == SelectSeq(Clauses(r), LAMBDA c : ~ c.ok)
 
 TraceInit == /\ i = 1
              /\ coords = << >> /\ flipped = FALSE /\ level = 0 /\ yoff = 0
-             /\ last = "trace" /\ prev = << >> /\ path = << >> /\ init = << >>
+             /\ last = "trace" /\ prev = << >> /\ path = << >> /\ init = << >> /\ free = << >>
 
 TraceNext ==
     /\ i <= Len(Trace)
